@@ -23,6 +23,31 @@ func typesEval(P *Program, fr *Frame, text string) (types.Type, error) {
 	return tv.Type, nil
 }
 
+// declareGhosts computes the Go types of the contract's ghost variables.
+func (fr *Frame) declareGhosts() {
+	if fr.contract == nil {
+		return
+	}
+	for _, gcl := range fr.contract.Ghosts {
+		if _, ok := fr.ghostTypes[gcl.Ghost]; ok {
+			continue
+		}
+		tv, err := typesEval(fr.x.P, fr, gcl.Type)
+		if err != nil {
+			cfail("%s: ghost type %q: %v", fr.x.P.posStr(gcl.Pos), gcl.Type, err)
+		}
+		fr.ghostTypes[gcl.Ghost] = tv
+	}
+}
+
+// ghostSort: ghost variables of function type func(A) B are logical maps (SMT arrays A -> B).
+func (x *Exec) ghostSort(t types.Type) string {
+	if sig, ok := t.Underlying().(*types.Signature); ok && sig.Params().Len() == 1 && sig.Results().Len() == 1 {
+		return SArr(x.ti.sortOf(sig.Params().At(0).Type()), x.ti.sortOf(sig.Results().At(0).Type()))
+	}
+	return x.ti.sortOf(t)
+}
+
 type evidenceOut struct {
 	json map[string]any
 	exit int
